@@ -40,6 +40,10 @@ BigStepAgrees == (done /\ IsElement) => result = RunAll(R, attrs)
 EmitDone ==
   (EMIT /\ done) =>
     Emit("REPLAY", [did |-> did, attrs |-> attrs,
+                    \* C08: the same items written as one attribute (where the merge law applies) - the real receiver is run on
+                    \* both spellings and has to answer alike
+                    merged |-> IF IsElement /\ NoSyntaxErr /\ R.attr_names # <<>> /\ Len(attrs) > 1
+                               THEN <<[path |-> R.attr_names[1], form |-> "list", items |-> MergedItems(R, attrs)]>> ELSE <<>>,
                     expect |-> [ok |-> result.ok, v |-> result.v,
                                 leaves |-> [i \in 1..Len(Leaves) |-> LeafRec(Leaves[i])],
                                 fwd |-> fwd,
